@@ -74,3 +74,8 @@ chk("C08", "model_checking",
     "race-detector stress runs, gate-driven exploration of lock-gate orders, and TLC validation of every recorded history (with hook-recorded linearization points) against ConcTrace.tla.",
     "Model: 3 goroutines x <= 3 ops exhaustive. Real code: sampled schedules (race detector) + exhaustive gate orders of 6 small programs. " + TB + " Go race detector.",
     "TLA+ lock-discipline model + history trace validation by TLC + race detector + gate-driven schedule exploration", "DESIGN.md §3 C08")
+chk("C17", "model_checking",
+    "ExtractFS.tla models the extractor step by step over a POSIX-like file system with symlink resolution; TLC checks containment on all bounded archives (and yields the symlink-then-file counterexample "
+    "without the final-component guard); every archive is built as a real UnixFS DAG and extracted by the built car binary in a sandbox whose outside is snapshotted before/after.",
+    "Exhaustive within: <= 2 (3) top-level entries, 23 leaf entry kinds + directories, 4 pre-populated states, one/two roots. " + TB + " The kernel's path resolution.",
+    "TLA+ file-system model + TLC-enumerated hostile archives extracted by the real binary with snapshot comparison", "DESIGN.md §3 C17")
